@@ -61,6 +61,9 @@ FIRST_MISSED = {
     "C19-4A": "linalg.pinv was not modelled (harness error); then: needs scalings 1e-6 and 1e6 on different coordinates (cond 1e24)",
     "C10-2B": "temperatures were on a rational grid; arbitrary real temperatures added (uninterpreted exp(beta*l), Ackermann congruence)",
     "C19-A": "budget exhausted; replay compared at scale 0.1 only (and with numpy's absolute tolerance)", "C19-B": "configured fallback equalled the class default in the harness"}
+# changes that were reported when they were evaluated and have since become harmless because the defect they build on was repaired
+HARMLESS_NOW = {k: "reported when evaluated; harmless since fix 18ba979 (systematic_resample's random_state no longer re-seeds the global stream - the pre-existing defect all three changes built on)"
+                for k in ("C09-A", "C09-2B", "C09-4B")}
 rows = []
 for d in sorted(glob.glob(os.path.join(os.path.dirname(__file__), "..", "seeded", "*"))):
     try:
@@ -82,7 +85,7 @@ for d in sorted(glob.glob(os.path.join(os.path.dirname(__file__), "..", "seeded"
     sigs = sigs or sigs_cc
     if m.get("confirmed") is False:
         status = "not a violation on the repaired head (demonstration passes); check exit 0"
-    rows.append((key, m.get("confirmed"), status, m.get("check_wall_s"), what.replace("|", "/"), (sigs[0] if sigs else "").replace("|", "/"), FIRST_MISSED.get(key, "")))
+    rows.append((key, m.get("confirmed"), status, m.get("check_wall_s"), what.replace("|", "/"), (sigs[0] if sigs else "").replace("|", "/"), "; ".join(x for x in (FIRST_MISSED.get(key, ""), HARMLESS_NOW.get(key, "")) if x)))
 print("| change | confirmed | quick check | wall s | what it is | reported as | first missed because |")
 print("|---|---|---|---|---|---|---|")
 for r in rows:
